@@ -137,6 +137,7 @@ def extra_names(rng, model: sites.SiteModel) -> None:
               "semi;colon.txt", "quote\"d.txt", "tick'd.txt", "<angle>.txt", "hash#tag.txt", "plus+plus.txt",
               "archive;2019/old-x.txt", "archive/new-a.txt", "report.txt;1", "report.txt", "a+b dir/plus.txt", "a b dir/blank.txt",
               "q=1&r=2/amp.txt", "it's (here), really!/x.txt", "$cash*star/y.txt",
+              "report {final}.txt", "{drafts}/x.txt", "a}b.txt", "{}", "{0}.txt", "%(name)s.txt", "%s%d.txt",
               "a b 12", "back\\slash.txt", "tilde~.txt", "colon:name.txt", "@at.txt", "sub dir/in ner.txt",
               "wapdir/inner.txt", "café d/été.txt", "wap/notes.txt", "wap/phones/list.txt", "sale%20off.txt", "a%41.txt",
               "pct%2Fdir/50%25.txt", "form\x0cfeed.txt", "vt\x0btab.txt", "fs\x1csep.txt", "nel\u0085next.txt", "ls\u2028sep.txt",
@@ -154,6 +155,10 @@ def extra_names(rng, model: sites.SiteModel) -> None:
         model.add(b"/" + n.encode(), "doc", None, tags=["file", "extra", "mbox-with-separator"])
     model.add(b"/in|out", "menu", tags=["dir", "extra"])
     t.subtree("mail|dir", trees.maildir_tree(["Sep maildir"], where="cur"))
+    # link files of the top-level directory: relative paths resolve against '/' (no doubled slash)
+    if b".Links" not in t.nodes:
+        t.file(".Links", "Name=Root relative file\nType=0\nPath=umn/one.txt\n\nName=Root relative dir\nType=1\nPath=umn\n\n"
+                         "Name=Root dot relative\nType=0\nPath=./umn/two.txt\n")
     # names at the file system's length limit: the mailbox is fine, a *virtual* selector built on it is longer than
     # any file name may be (the look-up of 'name|/MBOX-MESSAGE/1' as a path fails with ENAMETOOLONG, not ENOENT)
     t.file("L" * 250 + ".mbox", mb)
